@@ -3,6 +3,7 @@ import Uft.Model.Events
 import Uft.Model.CallTree
 import Uft.Lemmas.Events
 import Uft.Lemmas.EventsWatch
+import Uft.Lemmas.EventsFilt
 /-
 C17 — Read-trigger and watchpoint events are placed and valued consistently.
 
@@ -367,6 +368,70 @@ example : PlainT ({ base := { threshold := 50, maxStack := 1024 }, watchCpu := t
 example : GoodT (ESt.init ({ base := { threshold := 50 }, watchCpu := true } : ECfg) [] []) 0 := by
   constructor <;> simp [ESt.init, NoSkipE, noMaxDepth, noTime]
 
+
+/-! ### … on filtered stacks
+
+With filters the return stack also holds frames that are not recorded (outside the -F region, the -N function,
+beyond -D: MCOUNT_FL_NORECORD; -finstrument-functions pushes a frame for every call, -pg for a call whose
+trigger changes the filter state), so a frame's rstack index — what save_watchpoint tags its events with
+and mcount_exit_filter_record compares with `mtdp->idx` — is no longer its record depth.  The model keeps
+the two apart (`rest.length` vs `Frame.depth` / `recordIdx`); the theorems below do not mention the record
+depth at all. -/
+
+/-- `c17_dropped_with_call`, filtered stacks, one exit hook: `top` is a recorded frame whose call the time
+    filter drops; the frames below it (`rest`) are *any* frames — recorded or not, in any order — and `top`'s
+    record depth is whatever the filters made it.  Of the pending events `p0 ++ W0`, `p0` were saved by
+    hooks of frames below `top` (tags ≤ `rest.length`), `W0` by `top`'s own hooks.  The hook writes nothing,
+    pops `top` and keeps exactly `p0`: a pending watch event of a recorded caller survives the drop of a
+    short callee whatever unrecorded frames are on the stack, and the callee's own events go with it. -/
+theorem c17_dropped_keeps_callers_events (cfg : ECfg) (hfix : cfg.fixIdx = true) (s2 : ESt) (top : EFrame)
+    (rest : List EFrame) (t1 : Nat) (o : Obs) (p0 W0 : List Ev)
+    (hfr : s2.frames = top :: rest) (hover : s2.over = 0) (hnr : top.b.norecord = false) (hen : s2.enabled = true)
+    (hshort : durOk cfg.base (subU64 t1 top.b.start) (effThreshold cfg s2) = false)
+    (hw : top.b.written = false) (htr : top.b.trace = false)
+    (hpend : s2.pend = p0 ++ W0) (h0 : ∀ e ∈ p0, e.idx < rest.length + 1) (hW0 : ∀ e ∈ W0, e.idx = rest.length + 1)
+    (hmax : rest.length + 1 < ASYNC_IDX) :
+    (exitE cfg s2 t1 o).pend = p0 ∧ (exitE cfg s2 t1 o).out = s2.out ∧ (exitE cfg s2 t1 o).frames = rest := by
+  obtain ⟨h1, h2, h3, _⟩ := exitE_drop_filtered cfg hfix s2 top rest t1 o p0 W0 hfr hover hnr hen hshort hw htr hpend
+    h0 hW0 hmax
+  exact ⟨h1, h2, h3⟩
+
+/-- `c17_dropped_with_call` for filtered stacks, whole calls: for every option set with -F / -N / -D / -L / -Z
+    style filters on any functions (`FiltT`: any `filter`, `depth`, `loc`, `size` actions; no `time=` / `trace` /
+    `finish` / `trace_on` / `trace_off`), both hook flavours, any watchpoints, read triggers, -A and -R: a call
+    that the time filter drops — it and everything it calls is short, whether those callees are recorded,
+    rejected without a frame or kept as unrecorded frames — executed in *any* state between hooks (`InvF`:
+    any mix of recorded and unrecorded frames on the stack, any filter counters, any record depth, pending
+    watch events of the open frames) leaves the stream, the pending events and the stack exactly as they
+    were.  In particular every pending event of a recorded caller is still pending afterwards (it is
+    written with the caller's records, `c17_emit_exact_watch`), and no event of the dropped call is. -/
+theorem c17_dropped_with_call_filtered (cfg : ECfg) (hp : FiltT cfg) (hfix : cfg.fixIdx = true) (k : Kind)
+    (c : ECall) (s : ESt) (hg : InvF s) (hm : s.frames.length + c.height ≤ cfg.base.maxStack)
+    (hs : c.short cfg.base cfg.base.threshold) :
+    (runECall cfg k s c).out = s.out ∧ (runECall cfg k s c).pend = s.pend ∧
+    (runECall cfg k s c).frames = s.frames := by
+  obtain ⟨h1, h2, h3, _⟩ := droppedF_call cfg hp hfix k c s hg hm hs
+  exact ⟨h1, h2, h3⟩
+
+/-- `-F f2 -t 50 -W cpu` -/
+def cfgFilt : ECfg :=
+  { base := { threshold := 50, maxStack := 1024, optIn := true,
+              trig := fun f => if f = 2 then { filter := some true } else {} },
+    watchCpu := true }
+
+example : FiltT cfgFilt := by
+  constructor <;> intros <;> simp only [cfgFilt] <;> (try split) <;> simp [ASYNC_IDX, Gen.EventTab.ASYNC_IDX]
+
+/-- an unrecorded frame (f1, outside -F) below a recorded one (f2, record depth 0, rstack index 1) whose entry
+    hook's watch event (tag 2) is pending -/
+def stFilt : ESt :=
+  { frames := [{ b := { addr := 2, start := 1010, depth := 0, cyg := true, filtered := true, sTime := noTime } },
+               { b := { addr := 1, start := 0, depth := 0, cyg := true, norecord := true, sTime := noTime } }],
+    recordIdx := 1, filt := { inCount := 1, depth := 1 }, pend := [cpuEv 1011 2 3], winited := true, wcpu := some 3 }
+
+example : InvF stFilt := by
+  constructor <;> simp [stFilt, noTime, cpuEv]
+
 /-- … except asynchronous events, which force the flush (as coded): if an asynchronous event is pending
     when the exit hook has saved its watch events, record_trace_data runs although the time filter
     rejects the call, and the call's EXIT record is written. -/
@@ -504,6 +569,17 @@ theorem c17_prefix_unpaired_read_witness :
       [(100002, 1010, [5, 100])] ∧
     evsOf (runECall (cfgPair true) .pg (ESt.init (cfgPair true) [] []) (.node 1 1010 1030 (obsRU 5 100) (obsRU 8 150) .nil)).out =
       [] := by
+  decide
+
+/-- the history of the demonstration, on the model: main (f1, not selected by -F f2) calls f2, f2's entry hook
+    makes the thread's first observation (cpu 3), f2 calls the short f3 (5 ns, dropped by -t 50) and returns
+    after 90 ns: the watch event is written inside f2.  (Were the events kept by record depth — `idx ≤ depth`
+    of the frame that goes away — f3's exit hook would discard it: f3 has rstack index 2 and record depth 1.) -/
+example :
+    evsOf (runECalls cfgFilt .cyg (ESt.init cfgFilt [] [])
+      (.cons (.node 1 1000 1110 (obsC 3) (obsC 3)
+        (.cons (.node 2 1010 1100 (obsC 3) (obsC 3) (.cons (.node 3 1020 1025 (obsC 3) (obsC 3) .nil) .nil)) .nil)) .nil)).out =
+      [(100011, 1011, [3])] := by
   decide
 
 /-- non-vacuity of `c17_read_diff_paired`: with a 900-byte payload there is room and the pair is written -/
